@@ -517,18 +517,24 @@ SPECS["C16"] = {
                    "time, hand over another request}. Asserted: every request handed to the sink gets its completion callback exactly once; a request cancelled while the connection is down "
                    "is answered when it is cancelled, with an error; a request whose buffers were not all written successfully is answered with a non-empty error list; no error is reported "
                    "when the transport never failed and the request was not cancelled. VerifC16_Rollover: 101 requests across a connection recycle (maxStreamsPerConnection) with failing "
-                   "dials around it and all flush contexts done. OTLP (HTTP): the real SendMetricsAsync / postMetrics retry loop (errgroup, real back-off against the symbolic clock, "
+                   "dials around it and all flush contexts done. WHOLE SOCKET BACKENDS: statsdaemon.SendMetricsAsync (stream hand-over, processMetrics producing one-line buffers into the "
+                   "stream's channel) and graphite.SendMetricsAsync (payload, one-buffer stream) with the real sender goroutine behind them, 1..2 successive flushes each with its own flush "
+                   "context (not cancelled / cancelled before / after the hand-over), scripted dials and writes, shutdown at the end: one callback per flush, no error and the complete "
+                   "payload on the wire, in order, when nothing failed. OTLP (HTTP): the real SendMetricsAsync / postMetrics retry loop (errgroup, real back-off against the symbolic clock, "
                    "max-retries 0..2) against a symbolic per-attempt fault script {200, connection error, 503} for 1..2 batches: callback exactly once, an error whenever some batch (identified "
                    "by its request body) never had an accepted attempt, none when every attempt succeeded. INFLUXDB, DATADOG, NEW RELIC (HTTP): the real SendMetricsAsync (payload builder, "
                    "one goroutine per batch, request-buffer semaphore, collector goroutine), post / postData retry loops (real exponential back-off against the symbolic clock, New Relic's "
                    "Retry-After handling via a reflection-free errors.As) and constructPost / postWrapper (JSON encoders stubbed: a distinct handle per value) for 1..2 batches with 0..2 free "
-                   "request buffers (0 = all held by an earlier flush), the same per-attempt fault script, and shutdown just before the flush or while an attempt is in flight (symbolic): "
-                   "callback exactly once, a non-nil error when some attempted batch was never accepted, none when nothing failed, every attempt of a batch carries the same body, every "
-                   "request buffer is back in the pool (unless shut down). The flusher's WaitGroup accounting over callbacks is exercised by C01's flushData entries.",
+                   "request buffers (0 = all held by an earlier flush), a per-attempt fault script {accepted, connection error, 503, the http client's own per-request timeout (a url.Error wrapping "
+                   "context.DeadlineExceeded while the flush context is live), for New Relic also 429 with Retry-After}, a symbolic duration of 0..40 s per attempt on a mock clock injected through "
+                   "the context (tilinna clock.Mock, a sleep moves the clock), and shutdown just before the flush or while an attempt is in flight (symbolic; New Relic: thorough tier): "
+                   "callback exactly once, a non-nil error when some attempted batch was never accepted, none when nothing failed, every attempt of a batch carries the same body, no batch is retried once an attempt that began after the "
+                   "retry window (30 s) has failed, SendMetricsAsync does not block (a blocked harness is a violation, replayed natively by time-out), every request buffer is back in the pool "
+                   "(unless shut down). The flusher's WaitGroup accounting over callbacks is exercised by C01's flushData entries.",
     "bounds": {"quick": "1..2 streams x 1..2 buffers, <= 3..5 connect/write operations per run (longer scripts are cut by an assumption), <= 3 rounds; rollover: 101 one-buffer streams, <= 4 dials, writes never fail; OTLP / influxdb / datadog / newrelic: <= 3 attempts in total, 1..2 batches, 0..2 free buffers",
                "thorough": "adds 2 streams x 2 buffers x 3 rounds with harness-owned time"},
     "outside": ["cloudwatch: its client is the AWS SDK (reflection, request signing), not executable by the engine; NOT claimed", "compressed payloads of datadog / influxdb (the "
-                "harness runs them uncompressed; New Relic's gzip path runs for real in VerifC16_NewRelicKey / VerifC17_NewRelicRetryBody)", "the JSON text itself (stub)", "statsdaemon's producer that stops early on cancel", "real scheduling: "
+                "harness runs them uncompressed; New Relic's gzip path runs for real in VerifC16_NewRelicKey / VerifC17_NewRelicRetryBody)", "the JSON text itself (stub)", "real scheduling: "
                 "one goroutine runs at a time and runs until it blocks; a counterexample that needs a select to prefer a particular ready case may not reproduce natively (the driver then "
                 "tries the other candidate paths to the same assertion and reports a CHECK-PROBLEM, exit 2, if none reproduces)"],
     "assumptions": STUBS_COMMON + [NET_STUBS, TIME_MODEL, "time.NewTimer: fired at once (time model a) or pending until verifAdvanceTime (time model b; natively a 1.1 s sleep)"],
@@ -542,16 +548,21 @@ SPECS["C16"] = {
         {"pkg": "./pkg/backends/otlp", "harness": "pkg/backends/otlp", "mode": "machine",
          "entries": {"quick": ["VerifC16_OTLP"]}, "reach": {"*": ["clean", "all-failed", "partial-failure"]},
          "limits": {"quick": {"timeout": "600s"}}},
+        {"pkg": "./pkg/backends/statsdaemon", "harness": "pkg/backends/statsdaemon", "mode": "machine",
+         "entries": {"quick": ["VerifC16_StatsDaemon1", "VerifC16_StatsDaemon2"]}, "reach": {"*": ["clean", "faulty"]}, "limits": {"quick": {"timeout": "600s"}}},
+        {"pkg": "./pkg/backends/graphite", "harness": "pkg/backends/graphite", "mode": "machine",
+         "entries": {"quick": ["VerifC16_Graphite1", "VerifC16_Graphite2"]}, "reach": {"*": ["clean", "faulty"]}, "limits": {"quick": {"timeout": "600s"}}},
         {"pkg": "./pkg/backends/influxdb", "harness": "pkg/backends/influxdb", "mode": "machine",
-         "entries": {"quick": ["VerifC16_Influx", "VerifC16_InfluxTwin"]}, "reach": {"VerifC16_Influx": ["clean", "all-failed", "partial-failure", "cancelled"]},
-         "twin": {"VerifC16_InfluxTwin": True}, "limits": {"quick": {"timeout": "900s"}}},
+         "entries": {"quick": ["VerifC16_Influx", "VerifC16_InfluxTwin"], "thorough": ["VerifC16_Influx", "VerifC16_InfluxFull", "VerifC16_InfluxTwin"]},
+         "reach": {"VerifC16_Influx": ["clean", "all-failed", "partial-failure", "cancelled"], "VerifC16_InfluxFull": ["clean", "all-failed", "partial-failure", "cancelled"]},
+         "twin": {"VerifC16_InfluxTwin": True}, "blocked_is_violation": True, "limits": {"quick": {"timeout": "900s"}, "thorough": {"timeout": "1800s"}}},
         {"pkg": "./pkg/backends/datadog", "harness": "pkg/backends/datadog", "mode": "machine",
-         "entries": {"quick": ["VerifC16_Datadog"]}, "reach": {"*": ["clean", "all-failed", "partial-failure", "cancelled"]},
-         "limits": {"quick": {"timeout": "900s"}}},
+         "entries": {"quick": ["VerifC16_Datadog"], "thorough": ["VerifC16_Datadog", "VerifC16_DatadogFull"]}, "reach": {"*": ["clean", "all-failed", "partial-failure", "cancelled"]},
+         "blocked_is_violation": True, "limits": {"quick": {"timeout": "900s"}, "thorough": {"timeout": "1800s"}}},
         {"pkg": "./pkg/backends/newrelic", "harness": "pkg/backends/newrelic", "mode": "machine",
-         "entries": {"quick": ["VerifC16_NewRelic"], "thorough": ["VerifC16_NewRelic", "VerifC16_NewRelicKey"]},
-         "reach": {"*": ["clean", "all-failed", "partial-failure", "cancelled"]},
-         "limits": {"quick": {"timeout": "900s"}, "thorough": {"timeout": "1800s"}}},
+         "entries": {"quick": ["VerifC16_NewRelic"], "thorough": ["VerifC16_NewRelic", "VerifC16_NewRelicCancel", "VerifC16_NewRelicTypes", "VerifC16_NewRelicKey"]},
+         "reach": {"*": ["clean", "all-failed", "partial-failure"], "VerifC16_NewRelicCancel": ["clean", "all-failed", "partial-failure", "cancelled"]},
+         "blocked_is_violation": True, "limits": {"quick": {"timeout": "900s"}, "thorough": {"timeout": "3000s"}}},
     ],
 }
 
